@@ -285,6 +285,9 @@ func (s *Spec) Step(ctx context.Context, st *State, pending interface{}, c *Cont
 			bs = e.Bs
 		} else {
 			// Bind "actionError" to the error string.
+			// Extend a copy: at this point bs is still the
+			// caller's st.Bs (which can also be nil).
+			bs = bs.Copy()
 			bs.Extend("actionError", err.Error())
 			bs.Extend("error", err.Error())
 			if !s.ActionErrorBranches {
